@@ -5,6 +5,7 @@ package router
 import (
 	"github.com/nextdns/nextdns/router/ddwrt"
 	"github.com/nextdns/nextdns/router/edgeos"
+	"github.com/nextdns/nextdns/router/firewalla"
 	"github.com/nextdns/nextdns/router/generic"
 	"github.com/nextdns/nextdns/router/merlin"
 	"github.com/nextdns/nextdns/router/openwrt"
@@ -29,6 +30,9 @@ func detectRouter() Router {
 		return r
 	}
 	if r, ok := synology.New(); ok {
+		return r
+	}
+	if r, ok := firewalla.New(); ok {
 		return r
 	}
 	return generic.New()
